@@ -4,8 +4,8 @@
 (* combined, level by level, into runs of equal values; benchstat prints one      *)
 (* header row per level, one header cell per node, spanning the node's columns.   *)
 (*                                                                                 *)
-(* Function-style family: every key sequence within the constants is an initial   *)
-(* state.                                                                          *)
+(* Function-style family: every key sequence within the constants is a reachable   *)
+(* state (keys are appended one at a time), the properties are state invariants.   *)
 (*   DECLARATIVE  DeclNodes: at level lv the nodes are the maximal runs of         *)
 (*                consecutive keys that agree on fields 0..lv ("a node at level i  *)
 (*                represents a subslice of the keys that all have the same values  *)
@@ -85,8 +85,14 @@ Walk(ks, plv, ps, pl) ==
 OpNodes(ks) == IF ks = <<>> THEN {} ELSE Walk(ks, -1, 0, NK(ks))
 
 -----------------------------------------------------------------------------
-Init == \E n \in 0..MaxKeys, L \in LevelCounts : keys \in [1..n -> [1..L -> Vals]]
-Next == UNCHANGED keys
+\* every key sequence within the constants is reachable by appending keys one at a time
+\* (all keys of a sequence have the same number of fields: one Projection)
+Init == keys = <<>>
+AddKey(k) ==
+  /\ Len(keys) < MaxKeys
+  /\ (keys # <<>> => Len(k) = Len(keys[1]))
+  /\ keys' = Append(keys, k)
+Next == \E L \in LevelCounts : \E k \in [1..L -> Vals] : AddKey(k)
 Spec == Init /\ [][Next]_vars
 
 Covers(nd, c) == nd.start <= c /\ c < nd.start + nd.len
@@ -109,9 +115,12 @@ Nest(F, ks) ==
   /\ \A p \in F : p.lv < NL(ks) - 1 =>
         \A c \in p.start..(p.start + p.len - 1) : \E nd \in F : nd.lv = p.lv + 1 /\ nd.par = p.start /\ Covers(nd, c)
 
-Laws ==
-  LET F == OpNodes(keys) IN
-    /\ Partition(F, keys) /\ Label(F, keys) /\ Exact(F, keys) /\ Nest(F, keys)
+LawsOf(F, ks) == Partition(F, ks) /\ Label(F, ks) /\ Exact(F, ks) /\ Nest(F, ks)
+
+Laws == LawsOf(OpNodes(keys), keys)
 
 Agree == OpNodes(keys) = DeclNodes(keys)
+
+\* both at once (one evaluation of each forest)
+LawsAndAgree == LET F == OpNodes(keys) IN LawsOf(F, keys) /\ F = DeclNodes(keys)
 =============================================================================
